@@ -56,6 +56,9 @@ extern "C" int LLVMFuzzerTestOneInput(const uint8_t* data, size_t size)
     s.put(c);
     c.putI("grid_file", R(0, 6) == 0 ? R(1, 5) : 0);
     c.putI("verbose2", R(0, 2));
+    c.putI("paraview2", R(0, 3) == 0);
+    c.putI("write_grid", R(0, 4) == 0);
+    c.putI("poison2", R(0, 2) == 0 ? R(1, 4) : 0);
     fuzzJudge(c, runApiCase(c));
     return 0;
 }
